@@ -29,8 +29,8 @@ RULE = ('Every case is one call of a real Reaction / ParallelReaction / SeriesRe
         'actually moves (non-zero extent) or the conversion is infeasible, i.e. the call reached the arithmetic under test.')
 ASSUMPTIONS = [
     'package PKG_RXN = (H2,O2,H2O,CH4,CO,CO2,Ethanol,Glucose,AceticAcid); 12 atomically balanced stoichiometries incl. fractional coefficients',
-    'conversions X in {0, 0.3, 1} (thorough adds 0.5); feeds: 12 reaction-relative vectors (excess, stoichiometric, limiting co-reactant, zero '
-    'reactant, zero, reactant only, x1000, /1024, products only, dense, 1e-9 short, disparate scales)',
+    'conversions X in {0, 0.3, 1} (thorough adds 0.5); feeds: 13 reaction-relative vectors (excess, stoichiometric, limiting co-reactant, zero '
+    'reactant, zero, reactant only, x1000, /1024, products only, dense, 1e-9 short, disparate scales, stoichiometric up to rounding 0.1+0.2)',
     'a phase-less reaction is applied to single-phase streams and 1-d arrays only (the Reaction docstring restricts phase-less reactions to '
     'single-phase streams); phase-tagged reactions to MultiStreams with exactly the reaction\'s phases and to 2-d arrays',
     'elemental composition and the menu are hard-coded in the harness; molecular weights are read from the package (checked to balance the menu)',
@@ -59,7 +59,7 @@ def _load():
 # ---------------------------------------------------------------------------------------------------------
 # feeds
 
-FEEDS = ('excess', 'stoich', 'limit', 'noreact', 'zero', 'only-r', 'big', 'small', 'products', 'dense', 'short', 'disparate')
+FEEDS = ('excess', 'stoich', 'limit', 'noreact', 'zero', 'only-r', 'big', 'small', 'products', 'dense', 'short', 'disparate', 'fp')
 FEEDS_T = FEEDS + ('rich', 'trace', 'half')        # thorough tier adds these
 
 def feed_amounts(ri, reactant, fname):
@@ -103,6 +103,12 @@ def feed_amounts(ri, reactant, fname):
     elif fname == 'disparate':
         out[reactant] = 1. / 512.
         for k, x in need.items(): out[k] = 1000. * x
+    elif fname == 'fp':
+        # stoichiometric only up to floating-point rounding (non-dyadic): reactant 0.1 + 0.2, co-reactants need * 0.3; every other
+        # chemical present, in particular those at low package indices
+        for k in IDS: out[k] = 0.7
+        out[reactant] = 0.1 + 0.2
+        for k, x in need.items(): out[k] = x / F * 0.3
     elif fname == 'rich':
         out[reactant] = F
         for k, x in need.items(): out[k] = 16 * x
@@ -479,6 +485,7 @@ class Single(System):
                     if any(k not in rc.PKG_ORDER['B'] for k, x in am.items() if x): continue
                 for X in self.Xs:
                     if self.tier == 'quick' and X == 0.0 and f not in ('excess', 'stoich', 'zero'): continue
+                    if self.tier == 'quick' and f == 'fp' and X != 1.0: continue
                     acts.append((tk, f, X))
         return acts
 
